@@ -89,6 +89,29 @@ class _RegistryMeta(type):
 class RegistryMeta(_RegistryMeta, ABCMeta): ...
 
 
+def is_network_submodule(agent: SelfEvolvableAlgorithm, obj: Any) -> bool:
+    """Returns True if ``obj`` is a (sub-)module of one of the agent's evolvable networks, e.g.
+    the output layer the bandit algorithms keep a reference to (``exp_layer``).
+
+    :param agent: The agent whose networks are inspected.
+    :type agent: EvolvableAlgorithm
+    :param obj: The attribute value to check.
+    :type obj: Any
+
+    :return: Whether the object lives inside one of the agent's networks.
+    :rtype: bool
+    """
+    if not isinstance(obj, torch.nn.Module):
+        return False
+
+    for net in agent.evolvable_attributes(networks_only=True).values():
+        for module in net if isinstance(net, list) else [net]:
+            # NOTE: EvolvableModule.modules() only lists evolvable sub-modules
+            if any(obj is sub for sub in torch.nn.Module.modules(module)):
+                return True
+    return False
+
+
 def get_checkpoint_dict(agent: SelfEvolvableAlgorithm) -> Dict[str, Any]:
     """Returns a dictionary of the agent's attributes to save in a checkpoint.
 
@@ -858,6 +881,11 @@ class EvolvableAlgorithm(ABC, metaclass=RegistryMeta):
         # Load other attributes
         checkpoint.pop("network_info")
         for attribute in checkpoint.keys():
+            # References into the rebuilt networks (set by the mutation hooks) must stay live:
+            # the pickled copy in the checkpoint is detached from the loaded network
+            if is_network_submodule(self, getattr(self, attribute, None)):
+                continue
+
             setattr(self, attribute, checkpoint[attribute])
 
         # Wrap models / compile if necessary
@@ -1017,6 +1045,11 @@ class EvolvableAlgorithm(ABC, metaclass=RegistryMeta):
                 warnings.warn(
                     f"Attribute {attribute} not found in checkpoint. Skipping."
                 )
+                continue
+
+            # References into the rebuilt networks (set by the mutation hooks) must stay live:
+            # the pickled copy in the checkpoint is detached from the loaded network
+            if is_network_submodule(self, getattr(self, attribute, None)):
                 continue
 
             setattr(self, attribute, checkpoint.get(attribute))
